@@ -181,9 +181,13 @@ fn gen_foreign(rng: &mut Rng) -> Foreign {
     let comments = rng.chance(1, 2);
     const WS: [u8; 4] = [b' ', b'\t', b'\r', b'\n'];
     let n_seps = rng.usize(1, 5);
+    let wide = rng.chance(1, 25);
     let sample_seps = (0..n_seps)
         .map(|_| {
-            if rng.chance(1, 2) {
+            if wide && rng.chance(1, 3) {
+                // runs of whitespace longer than any token buffer a decoder might use
+                (0..rng.usize(20, 400)).map(|_| *rng.pick(&WS) as char).collect()
+            } else if rng.chance(1, 2) {
                 " ".to_string()
             } else {
                 (0..rng.usize(1, 4)).map(|_| *rng.pick(&WS) as char).collect()
@@ -239,7 +243,25 @@ fn p6_len(w: u32, h: u32) -> usize {
 /// real encoder through a benign sink and read back through a benign source.
 pub fn gen_jumbo(seed: u64) -> (PnmScenario, &'static str, Option<String>) {
     let mut rng = Rng::new(seed);
-    let (bw, bh) = *rng.pick(&[(65_537u32, 1u32), (1, 65_540), (70_001, 2), (300, 300), (3, 66_000)]);
+    if rng.chance(1, 3) {
+        // a large file in one of the other spellings, read through a benign source
+        let (fmt, w, h) = *rng.pick(&[(5u8, 1200u32, 900u32), (5, 70_000, 1), (6, 600, 600), (3, 400, 300), (2, 70_000, 1), (2, 300, 800), (3, 1, 66_000)]);
+        let f = Foreign {
+            fmt, w, h, max: 255, pixels: Pix::Seeded(rng.u64()),
+            sep0: b" ".to_vec(), sep1: b" ".to_vec(), sep2: b"\n".to_vec(),
+            pre_raster: b'\n', sample_seps: vec![" ".into(), "\n".into(), "  ".into()], trailing: "\n".into(), zero_pad: vec![],
+        };
+        let len = f.render().len();
+        let mut reader = gen_reader_benign(&mut rng, len);
+        if reader.chunks.iter().all(|&c| c != 0 && c < 64) {
+            reader.chunks = vec![4096, 1000, 0, 7];
+        }
+        if let RStack::Buf { cap, .. } | RStack::ChainBuf { cap, .. } = &mut reader.stack {
+            *cap = (*cap).max(512);
+        }
+        return (PnmScenario { work: PnmWork::Foreign(f), writer: WriterCfg::plain(), disk: vec![], reader, via_path: false }, "search:jumbo", None);
+    }
+    let (bw, bh) = *rng.pick(&[(65_537u32, 1u32), (1, 65_540), (70_001, 2), (300, 300), (3, 66_000), (1025, 1024)]);
     let li = LibImage { bw, bh, pixels: Pix::Seeded(rng.u64()), view: if rng.chance(1, 2) { View::Ref } else { View::Slice(RectU { x: 0, y: 0, w: bw, h: bh }) } };
     let len = p6_len(bw, bh);
     let mut writer = gen_writer_benign(&mut rng, len);
